@@ -810,6 +810,18 @@ func runC18(o *Out, rng *RNG, tier string, replay string) {
 		}
 	}
 
+	// (1b) line endings inside values, with and without the SSH-certificate block (a normalisation of
+	// the certificate text must not reach the values)
+	{
+		m := map[string]string{}
+		for i, v := range []string{"a\r\nb", "\r\n", "x\r", "\rx", "HTTP/1.1 200 OK\r\nHost: x\r\n\r\nbody", "a\n\rb", "a\r\r\nb", "tab\there", "\r\n\r\nz", "form\ffeed\vvt", "a\r\n", "'\r\n'", "\"\r\n\"", "$X\r\n`id`"} {
+			m[c18VarName(i)] = v
+		}
+		c.runEnv("ssh", m, "", "")
+		c.runEnv("dcmd", m, "", "")
+		c.runEnvL("dcmd", m, c18Pub, c18Sec, true)
+	}
+
 	// (2) random environments
 	nRandom := 55
 	if thorough {
